@@ -188,6 +188,7 @@ theorem placementNotReady_p (ex : List SEvent) (ev : SEvent) (t : TaskId) (p : P
     | pg_etype
     | pg_efadd
 
+set_option maxHeartbeats 800000 in
 theorem handleSchedulerFinish_p (ex : List SEvent) (ev : SEvent) :
     KeepsP ex (handleSchedulerFinish ev) := by
   have h_mk := mkEvent_p ex
@@ -203,6 +204,7 @@ theorem handleSchedulerFinish_p (ex : List SEvent) (ev : SEvent) :
     | pg_ev
     | pg_etype
     | (rs_hyps h => rs_hyps h2 => exact ⟨h.1, NoFin.append h2.2 h.2⟩)
+    | (rs_hyps h => rs_hyps h2 => exact ⟨h.1, NoFin.append (NoFin.editPending h2.2 _ _) h.2⟩)
     | (rs_hyps h => rs_hyps h2 => exact noFin_mem_sorted _ h.2 _ _ _ h2)
 
 end ErdosVerif.Model.Sim
